@@ -8,7 +8,7 @@ import json, os, re, subprocess, sys
 
 args = sys.argv[1:]
 prop, rx, kid = args[:3]
-src = "/tmp/ptera-orig"
+src = "/tmp/ptera-orig"  # (create it first: git -C /repo worktree add --detach /tmp/ptera-orig 411392b; remove it afterwards)
 runs = "2000"
 if "--src" in args:
     src = args[args.index("--src") + 1]
